@@ -25,6 +25,7 @@ RULE = (
     "Oracle: HyperVFile(fh).as_dict() == tree with exact Python types (bool vs int, float by bit pattern), per-leaf "
     "hf[...]...value, header.sequence_number and replay_logs[0].offset of the active header. Non-trivial = >= 2 key tables, "
     ">= 1 file-object value and >= 3 value types."
+    ' Key tables filled to their last byte ending in a 27..30-byte entry; files opened through a minimal file object; top-level entries that outlive the HyperVFile object.'
 )
 ASSUMPTIONS = [
     "checksums are written as zero: their algorithm is not public and the reader does not verify them",
